@@ -30,6 +30,7 @@ def run(ctx, report):
         report.guard("C14.NOSWALLOW", R.noswallow, ctx, report, "C14.NOSWALLOW", facts, config)
         report.guard("C14.RELEASE", R.release, ctx, report, "C14.RELEASE", facts, config)
         report.guard("C14.INTACT", R.intact, ctx, report, "C14.INTACT", facts, config)
+        report.guard("C14.INTACT", R.intact_flow, ctx, report, "C14.INTACT", facts, config)
         report.guard("C14.LOCK", R.lock, ctx, report, "C14.LOCK", facts, config)
         report.guard("C14.ONCE", F.check_family, ctx, report, "C14.ONCE", facts, config, (F.RUN,), lambda i: i in ONCE_IDS)
     P.check(ctx, report, "C14.NOSWALLOW", ["catch_unwind", "resume_unwind", "panic_hook"])
